@@ -8,6 +8,7 @@ package main
 
 import (
 	"encoding/json"
+	"errors"
 	"fmt"
 	"io"
 	"net/http"
@@ -51,7 +52,7 @@ func newServer(bin, confTemplate, dir string, port int) (*server, error) {
 		return nil, err
 	}
 	return &server{bin: bin, conf: conf, dir: dir, port: port, base: fmt.Sprintf("http://127.0.0.1:%d", port),
-		hc: &http.Client{Timeout: 60 * time.Second}}, nil
+		hc: &http.Client{Timeout: 120 * time.Second}}, nil
 }
 
 func (s *server) start() error {
@@ -124,6 +125,9 @@ func (s *server) query(db, q string) ([]qSeries, error) {
 	}
 	resp, err := s.hc.PostForm(s.base+"/query", v)
 	if err != nil {
+		if isTimeout(err) {
+			return nil, fmt.Errorf("harness-timeout: the statement was not answered within %s (its fate is unknown): %v", s.hc.Timeout, err)
+		}
 		return nil, err
 	}
 	defer resp.Body.Close()
@@ -155,6 +159,11 @@ func (s *server) write(db, rp, body string) error {
 	for i := 0; i < 20; i++ {
 		resp, err := s.hc.Post(u, "text/plain", strings.NewReader(body))
 		if err != nil {
+			if isTimeout(err) {
+				// the request may still be executed by the server later: never send it again (a late duplicate of a write from
+				// before a drop would look like dropped data coming back)
+				return fmt.Errorf("harness-timeout: the write was not answered within %s (its fate is unknown): %v", s.hc.Timeout, err)
+			}
 			last = err
 			time.Sleep(300 * time.Millisecond)
 			continue
@@ -168,6 +177,11 @@ func (s *server) write(db, rp, body string) error {
 		time.Sleep(300 * time.Millisecond)
 	}
 	return last
+}
+
+func isTimeout(err error) bool {
+	var ue *url.Error
+	return errors.As(err, &ue) && ue.Timeout()
 }
 
 func (s *server) ctrl(params string) error {
